@@ -111,7 +111,9 @@ class Block(Node):
                             scope.add_block(block)
             scope.real.pop()
             scope.pop()
-            if self.inner or self.parsed:
+            if self.inner or any(
+                    str(type(p)) != "<class 'lesscpy.plib.variable.Variable'>"
+                    for p in self.parsed):
                 return [self] + sibling_media_queries
             else:
                 return sibling_media_queries
